@@ -20,7 +20,7 @@ func init() {
 		ID:          "C10",
 		Level:       "other",
 		Run:         runC10,
-		Explanation: "One necessary condition per variant family. R10.1 (variants with several execute units): the control unit's dispatch decision, or the execute unit's decision to start, is control-dependent on the kinds or addresses of older in-flight memory operations (a hold of a load/store while a conflicting store is pending: a test of IsMemoryRead/IsMemoryWrite or of MemoryRead/MemoryWrite addresses that leaves without dispatching, or a use of the per-address store scoreboard PendingWriteMemoryIntention); uses of the same calls that only feed a routing preference do not count. Its absence makes the property false for some program. R10.2 (in-order variants with one execute unit): the write unit performs a store when it accepts it and blocks for the memory latency, so no younger access is accepted in between. R10.3: the per-line locks pair up (R07.4), necessary for cross-core ordering. Does not decide whether an existing mechanism is sufficient (ordering of conflicting accesses is a schedule/value property).",
+		Explanation: "One necessary condition per variant family. R10.1 (variants with several execute units): the control unit's dispatch decision, or the execute unit's decision to start, is control-dependent on the kinds or addresses of older in-flight memory operations (a hold of a load/store while a conflicting store is pending: a test of IsMemoryRead/IsMemoryWrite or of MemoryRead/MemoryWrite addresses that leaves without dispatching, or a use of the per-address store scoreboard PendingWriteMemoryIntention); uses of the same calls that only feed a routing preference do not count. Its absence makes the property false for some program. R10.2 (in-order variants with one execute unit): the write unit performs a store when it accepts it and blocks for the memory latency, so no younger access is accepted in between. R10.3: the per-line locks pair up (R07.4), necessary for cross-core ordering. R10.4: MemoryRead/MemoryWrite of every load and store return exactly the byte addresses the instruction accesses (the variants probe, lock and route on these lists). R10.5 (pipelined variants without per-line locks): the line a load miss installs in the data cache is read from the memory image in the step that installs it, not snapshotted when the miss is detected. R10.6 (same variants): a load that hits samples its bytes in the step that issues it; a deferred continuation reads the data cache only right after installing the missing line. Does not decide whether an existing mechanism is sufficient (ordering of conflicting accesses is a schedule/value property).",
 		Assumptions: []string{},
 		Trusted:     []string{"go/types", "role resolution"},
 	})
@@ -173,6 +173,11 @@ func runC10(r *Run) {
 			}
 		}
 	}
+	r.floor("R10.4", 12)
+	ruleAddressLists(r, "R10.4")
+	r.floor("R10.5", 6)
+	r.floor("R10.6", 4)
+	ruleLoadSampling(r, "R10.5", "R10.6")
 	// R10.3 = R07.4a
 	before := len(r.Obs)
 	ruleLockDiscipline(r, "R10.3")
@@ -185,4 +190,231 @@ func runC10(r *Run) {
 		}
 	}
 	r.Obs = kept
+}
+
+// ---------------------------------------------------------------------------
+// R10.4: the address lists the variants probe, lock and route on are exact.
+
+func ruleAddressLists(r *Run, rule string) {
+	a := analyseISA(r.W)
+	sb := newSpecBuilder(a)
+	if sb == nil {
+		r.undecided(rule, "risc.Execution", token.NoPos, "struct risc.Execution not found")
+		return
+	}
+	for _, op := range a.ops {
+		sp := sb.spec(op.mnemonic)
+		if sp == nil || (sp.memRead == nil && sp.memWrite == nil) {
+			continue
+		}
+		addressLists(r, rule, "risc.(*"+op.typeName+")", op, sp)
+	}
+}
+
+// ---------------------------------------------------------------------------
+// R10.5 / R10.6: when a load samples its bytes (variants without per-line locks).
+
+// dataCachePushers / dataCacheProbes: methods of the variant that directly call
+// PushLine / Get on a cache that is also written by stores (a data cache).
+func dataCacheMethods(v *variant, method string) map[*types.Func]bool {
+	byVar := map[*types.Var]*cacheInfo{}
+	for _, c := range cachesOf(v) {
+		byVar[c.field] = c
+	}
+	out := map[*types.Func]bool{}
+	for _, f := range v.pkg.Syntax {
+		for _, d := range f.Decls {
+			fd, ok := d.(*ast.FuncDecl)
+			if !ok || fd.Body == nil {
+				continue
+			}
+			ast.Inspect(fd.Body, func(n ast.Node) bool {
+				call, ok := n.(*ast.CallExpr)
+				if !ok || lruMethod(v.info, call) != method {
+					return true
+				}
+				if c := cacheOfExpr(v, byVar, call.Fun.(*ast.SelectorExpr).X); c != nil && c.dirty {
+					if fn, ok := v.info.Defs[fd.Name].(*types.Func); ok {
+						out[fn] = true
+					}
+				}
+				return true
+			})
+		}
+	}
+	return out
+}
+
+// imageReaders: functions of the variant that read the memory image and return bytes.
+func imageReaders(v *variant) map[*types.Func]bool {
+	out := map[*types.Func]bool{}
+	for _, f := range v.pkg.Syntax {
+		for _, d := range f.Decls {
+			fd, ok := d.(*ast.FuncDecl)
+			if !ok || fd.Body == nil || fd.Type.Results == nil {
+				continue
+			}
+			reads := false
+			ast.Inspect(fd.Body, func(n ast.Node) bool {
+				switch x := n.(type) {
+				case *ast.IndexExpr:
+					if ctxFieldWritten(v.info, x.X) == "Memory" {
+						reads = true
+					}
+				case *ast.SliceExpr:
+					if ctxFieldWritten(v.info, x.X) == "Memory" {
+						reads = true
+					}
+				}
+				return true
+			})
+			if reads {
+				if fn, ok := v.info.Defs[fd.Name].(*types.Func); ok {
+					out[fn] = true
+				}
+			}
+		}
+	}
+	return out
+}
+
+func usesLineLocks(w *World, v *variant) bool {
+	return w.reaches(v.info, v.run, func(fn *types.Func) bool {
+		sig := fn.Type().(*types.Signature)
+		return sig.Recv() != nil && isCompType(sig.Recv().Type(), "Sem")
+	})
+}
+
+func ruleLoadSampling(r *Run, rule5, rule6 string) {
+	w := r.W
+	for _, v := range variants(w) {
+		if v.pkg == nil || !v.pipelined() || usesLineLocks(w, v) {
+			continue
+		}
+		info := v.info
+		pushers := dataCacheMethods(v, "PushLine")
+		probes := dataCacheMethods(v, "Get")
+		readers := imageReaders(v)
+		for _, f := range v.pkg.Syntax {
+			for _, d := range f.Decls {
+				fd, ok := d.(*ast.FuncDecl)
+				if !ok || fd.Body == nil {
+					continue
+				}
+				if fn, ok := info.Defs[fd.Name].(*types.Func); ok && (pushers[fn] || probes[fn]) {
+					continue
+				}
+				n5, n6 := 0, 0
+				// walk with the innermost function on a stack
+				var walk func(n ast.Node, fnNode ast.Node, isLit bool)
+				walk = func(n ast.Node, fnNode ast.Node, isLit bool) {
+					ast.Inspect(n, func(m ast.Node) bool {
+						if m == nil || m == n {
+							return true
+						}
+						if lit, ok := m.(*ast.FuncLit); ok {
+							walk(lit.Body, lit, true)
+							return false
+						}
+						call, ok := m.(*ast.CallExpr)
+						if !ok {
+							return true
+						}
+						callee, _ := typeutil.Callee(info, call).(*types.Func)
+						if callee == nil {
+							return true
+						}
+						if pushers[callee] {
+							n5++
+							key := fmt.Sprintf("%s.%s:installed-line#%d", v.rel, declName(fd), n5)
+							// the []int8 argument
+							var lineArg ast.Expr
+							for _, a := range call.Args {
+								if sl, ok := info.TypeOf(a).Underlying().(*types.Slice); ok {
+									if b, ok := sl.Elem().Underlying().(*types.Basic); ok && b.Kind() == types.Int8 {
+										lineArg = a
+									}
+								}
+							}
+							fresh := false
+							why := "the line is not a local variable"
+							if id, ok := ast.Unparen(lineArg).(*ast.Ident); ok {
+								obj := info.Uses[id]
+								why = "the line variable is not assigned from a read of the memory image in the step that installs it"
+								// its definitions inside the innermost function
+								defs, defsOutside := 0, 0
+								ast.Inspect(fd.Body, func(k ast.Node) bool {
+									as, ok := k.(*ast.AssignStmt)
+									if !ok {
+										return true
+									}
+									for i, l := range as.Lhs {
+										lid, ok := l.(*ast.Ident)
+										if !ok || (info.Defs[lid] != obj && info.Uses[lid] != obj) {
+											continue
+										}
+										inside := as.Pos() >= fnNode.Pos() && as.End() <= fnNode.End() && as.Pos() < call.Pos()
+										var rhs ast.Expr
+										if len(as.Rhs) == len(as.Lhs) {
+											rhs = as.Rhs[i]
+										} else if len(as.Rhs) == 1 {
+											rhs = as.Rhs[0]
+										}
+										isRead := false
+										if c2, ok := ast.Unparen(rhs).(*ast.CallExpr); ok {
+											if f2, ok := typeutil.Callee(info, c2).(*types.Func); ok && readers[f2] {
+												isRead = true
+											}
+										}
+										if inside && isRead {
+											defs++
+										} else {
+											defsOutside++
+										}
+									}
+									return true
+								})
+								fresh = defs >= 1 && defsOutside == 0
+							} else if c2, ok := ast.Unparen(lineArg).(*ast.CallExpr); ok {
+								if f2, ok := typeutil.Callee(info, c2).(*types.Func); ok && readers[f2] {
+									fresh = true
+								}
+							}
+							r.check(fresh, rule5, key, call.Pos(), "without per-line locks, the line a miss installs in the data cache is read from the memory image in the very step that installs it (a snapshot taken when the miss was detected would miss a store performed during the latency): %s", why)
+						}
+						if probes[callee] && isLit {
+							// is the data result consumed?
+							consumed := true
+							// find the enclosing assignment
+							ast.Inspect(fnNode, func(k ast.Node) bool {
+								if as, ok := k.(*ast.AssignStmt); ok && len(as.Rhs) == 1 && as.Rhs[0] == ast.Expr(call) {
+									if id, ok := as.Lhs[0].(*ast.Ident); ok && id.Name == "_" {
+										consumed = false
+									}
+								}
+								return true
+							})
+							if !consumed {
+								return true
+							}
+							n6++
+							key := fmt.Sprintf("%s.%s:deferred-probe#%d", v.rel, declName(fd), n6)
+							afterPush := false
+							ast.Inspect(fnNode, func(k ast.Node) bool {
+								if c3, ok := k.(*ast.CallExpr); ok && c3.End() <= call.Pos() {
+									if f3, ok := typeutil.Callee(info, c3).(*types.Func); ok && pushers[f3] {
+										afterPush = true
+									}
+								}
+								return true
+							})
+							r.check(afterPush, rule6, key, call.Pos(), "a load reads the data cache in a deferred continuation only right after that continuation installed the missing line; a load that hits samples its bytes in the step that issues it (a later re-probe would return a younger store performed by another execute unit during the access latency)")
+						}
+						return true
+					})
+				}
+				walk(fd.Body, fd, false)
+			}
+		}
+	}
 }
